@@ -4,7 +4,7 @@ Theorems over every state reachable in the runtime LTS (any number of payloads, 
 interleaving of the events its guards admit).  The semantics of asyncio / trio / threading is
 in the guards of the LTS (assumed); the bookkeeping is what is proved.
 -/
-import CobaldVerif.Lemmas.RuntimeInv
+import CobaldVerif.Lemmas.RuntimeProgress
 
 namespace Cobald.Props.C01
 open Cobald Cobald.Runtime
@@ -61,6 +61,32 @@ failure is recorded -/
 theorem quiet_records (s : St) (hr : Reach s) (hq : s.quiet) (f : Flav) : s.latch f ≠ .closed :=
   (inv_reach s hr).a.quiet_open hq f
 
+/-- **it never keeps running**: once a failure has been delivered to the runtime (`gather` raised
+it) and the coroutine payloads have unwound, the closing steps are enabled one after the other,
+each strictly decreases a measure of at most 8, and the run call ends - by raising, never by a
+normal return (unless the failure was a KeyboardInterrupt). Thread payloads appear in none of
+the conditions: blocked threads do not keep the run alive. -/
+theorem failure_ends_run (s : St) (hr : Reach s) (hup : s.phase = .up) (p : Nat) (hg : s.gather = .raised p)
+    (hk : s.pay p ≠ .done .kbd) (hq : s.coQuiet) :
+    ∃ es s' r, (es.all Ev.closingEv = true) ∧ run s es = some s' ∧ s'.phase = .ended r ∧ r ≠ .returned ∧ es.length ≤ 8 :=
+  Runtime.failure_ends_run s hr hup p hg hk hq
+
+/-- **no stall while closing**: in every reachable state that is up, has been asked to stop and
+whose coroutine payloads have unwound, some closing step (or the end of the run) is enabled and
+makes progress -/
+theorem no_stall (s : St) (hr : Reach s) (hup : s.phase = .up) (hc : s.closing) (hq : s.coQuiet) :
+    ∃ e s', e.closingEv = true ∧ step s e = some s' ∧ s'.mu < s.mu := by
+  obtain ⟨e, s', h1, h2, h3, _⟩ := closing_progress s (inv_reach s hr) hup hc hq
+  exact ⟨e, s', h1, h2, h3⟩
+
+/-- a recorded failure always reaches `gather` (the failed runner's task can end and deliver it) -/
+theorem failure_delivered (s : St) (f : Flav) (p : Nat) (hup : s.phase = .up)
+    (hl : s.latch f = .failed p) (hrt : s.rtask f = .running) (hg : s.gather = .pending) :
+    ∃ s1 s2, step s (.rtaskEnd f) = some s1 ∧ step s1 (.gatherRaise f) = some s2 ∧ s2.gather = .raised p ∧ s2.phase = .up := by
+  refine ⟨{ s with rtask := step.upd' s.rtask f (.err p) }, { s with rtask := step.upd' s.rtask f (.err p), gather := .raised p }, ?_, ?_, rfl, hup⟩
+  · simp [step, hup, hrt, hl]
+  · simp [step, step.upd', hup, hg]
+
 /-! ### non-vacuity: a thread payload returns a falsy value next to an asyncio bystander -/
 
 def trace : List Ev :=
@@ -71,5 +97,9 @@ def trace : List Ev :=
 def viewPhase (o : Option St) : Option (Phase × List Nat) := o.map (fun s => (s.phase, s.failedQuiet))
 example : viewPhase (run St.init trace) = some (.ended (.raisedRT 2), [2]) := by decide +kernel
 example : (run St.init (trace.dropLast ++ [.endRun .returned])).isNone = true := by decide +kernel
+
+-- the hypotheses of `failure_ends_run` are met after the failure was delivered and the bystander unwound
+example : ((run St.init (trace.take 14)).map (fun s => (s.phase, s.gather, s.pay 2, decide s.coQuiet))) =
+    some (.up, .raised 2, .done .value, true) := by decide +kernel
 
 end Cobald.Props.C01
